@@ -4,26 +4,54 @@ import DoitModel.Proofs.Status
 namespace DoitModel.Intro
 open DoitModel.Status
 
-/-- under the history invariant: for a dependency the last recorded successful execution had, with the same checker,
-    `info` lists it as changed exactly when it exists and is modified -- by the checker's rule -- relative to what that
-    execution saw -/
+theorem listed_empty (c : Checker) (fs : FS) (p : Path) : depListed c Rcd.empty fs p = (fs p).isSome := by
+  simp only [depListed, Rcd.empty]
+  cases fs p <;> rfl
+
+/-- under the history invariant, same checker as the last recorded successful execution: `info` lists a dependency
+    as changed exactly when it exists and that execution did not have it or it is modified -- by the checker's rule --
+    relative to what that execution saw -/
 theorem changed_iff_spec {s : St} (hinv : Inv s) (t : Name) (e : Exec) (he : s.shadow t = some e)
-    (hck : e.checker = s.checker) (p : Path) (hp : p ∈ e.deps) :
+    (hck : e.checker = s.checker) (p : Path) :
     p ∈ (infoReasons s t).changed ↔
-      p ∈ (s.defs t).deps ∧ (s.fs p).isSome = true ∧ depUnmod s.checker e s.fs p = false := by
+      p ∈ (s.defs t).deps ∧ (s.fs p).isSome = true ∧ (p ∉ e.deps ∨ depUnmod s.checker e s.fs p = false) := by
   have hag := hinv.agree t
   rw [he] at hag
-  obtain ⟨_, _, hc, _, hfs⟩ := hag
-  obtain ⟨sm, hsaw, hst⟩ := hfs p hp
+  obtain ⟨_, _, hc, hd, hfs⟩ := hag
   have hcc : checkerChanged s.checker (s.rcd t) = false := by
     simp [checkerChanged, hc, hck]
-  simp only [infoReasons, reasonsOf, List.mem_filter, logRcd, hcc, Bool.false_eq_true, if_false, depIs, depUnmod,
-    hsaw]
+  simp only [infoReasons, reasonsOf, List.mem_filter, logRcd, hcc, Bool.false_eq_true, if_false, depListed,
+    notInPrev, hd]
   cases hf : s.fs p with
   | none => simp
   | some cur =>
-    simp only [depVerdict, hst, hck, Option.isSome_some, unmodBy, true_and, beq_iff_eq]
-    have hne := checkModified_stateOf_ne_crash s.checker sm cur
-    cases hm : checkModified s.checker (stateOf s.checker sm) cur <;> simp_all
+    by_cases hp : p ∈ e.deps
+    · obtain ⟨sm, hsaw, hst⟩ := hfs p hp
+      have hne := checkModified_stateOf_ne_crash s.checker sm cur
+      simp only [hst, hp, hck, decide_true, Bool.not_true, Bool.false_or, Option.isSome_some, true_and,
+        not_true_eq_false, false_or, depUnmod, hf, hsaw, unmodBy, beq_iff_eq]
+      cases hm : checkModified s.checker (stateOf s.checker sm) cur <;> simp_all
+    · cases hs : (s.rcd t).fstate p <;> simp [hp]
+
+/-- no recorded execution: every existing dependency is listed -/
+theorem changed_iff_none {s : St} (hinv : Inv s) (t : Name) (he : s.shadow t = none) (p : Path) :
+    p ∈ (infoReasons s t).changed ↔ p ∈ (s.defs t).deps ∧ (s.fs p).isSome = true := by
+  have hag := hinv.agree t
+  rw [he] at hag
+  obtain ⟨_, _, hc, _, hfs⟩ := hag
+  have hcc : checkerChanged s.checker (s.rcd t) = false := by simp [checkerChanged, hc]
+  simp only [infoReasons, reasonsOf, List.mem_filter, logRcd, hcc, Bool.false_eq_true, if_false, depListed, hfs p]
+  cases s.fs p <;> simp
+
+/-- the last recorded execution used another checker: every existing dependency is listed -/
+theorem changed_iff_other {s : St} (hinv : Inv s) (t : Name) (e : Exec) (he : s.shadow t = some e)
+    (hck : e.checker ≠ s.checker) (p : Path) :
+    p ∈ (infoReasons s t).changed ↔ p ∈ (s.defs t).deps ∧ (s.fs p).isSome = true := by
+  have hag := hinv.agree t
+  rw [he] at hag
+  obtain ⟨_, _, hc, _, _⟩ := hag
+  have hcc : checkerChanged s.checker (s.rcd t) = true := by
+    simp [checkerChanged, hc, hck]
+  simp only [infoReasons, reasonsOf, List.mem_filter, logRcd, hcc, if_true, listed_empty]
 
 end DoitModel.Intro
